@@ -18,7 +18,7 @@ MINIMISE_BUDGET = 120
 ORACLES = ("C03.",)
 HASHSEEDS = ["1", "12345", "777"]
 RULE = (
-    "for each seeded program (C01 generator incl. loads, plus direct dds.keep calls with argument values) one canonical "
+    "for each seeded program (C01 generator incl. loads) one canonical "
     "evaluation (fresh forked process, hash seed 0, local store) and 3-7 variants: interpreters started with "
     "PYTHONHASHSEED 1 / 12345 / 777; another working directory; the source tree copied to another directory and reached "
     "through a symbolic link; memory / local+cache store; extra_debug through argument and option; graph export on; "
@@ -38,7 +38,7 @@ ASSUMPTIONS = c01.ASSUMPTIONS + [
 ]
 PROBES = ["variant_hashseed", "variant_cwd", "variant_moved_tree", "variant_symlink_tree", "variant_store_kind",
           "variant_extra_debug", "variant_graph_export", "variant_prehistory>=2", "variant_after_failed_eval",
-          "corpus_program_checked", "direct_keep_entry"]
+          "corpus_program_checked"]
 PRELOAD = []
 
 
